@@ -156,20 +156,17 @@ def check_result(case, res, obs):
     cnt = Counter(j for _, j in obs["delivered"])
     if sorted(cnt) != list(range(len(items))) or any(c != 1 for c in cnt.values()):
         raise Violation(f"items delivered {dict(cnt)} times ({ctx_s})", "items-lost-or-duplicated")
-    # shape of the return value
-    if len(present) == 1:
-        parts = [res]
-        if isinstance(res, tuple):
-            raise Violation("a single requested sketch must be returned bare, got a tuple", "return-shape")
-    else:
-        if not isinstance(res, tuple) or len(res) != len(present):
-            raise Violation(f"expected a tuple of {len(present)} sketches, got {type(res).__name__}", "return-shape")
-        parts = list(res)
-    by = dict(zip(present, parts))
+    # identify the returned sketches by class (the order of the tuple is documented, but it is not part of
+    # the property: an unexpected order is counted in the evidence, not reported)
+    parts = list(res) if isinstance(res, tuple) else [res]
     want_cls = {"cms_args": CMS_CLASS[combo["cms_args"]["cms_type"]] if combo.get("cms_args") else None, "hh_args": HeavyHitters, "hll_args": HyperLogLog}
-    for k, sk in by.items():
-        if type(sk) is not want_cls[k]:
-            raise Violation(f"result for {k} is a {type(sk).__name__} (alphabetical order cms, hh, hll expected)", "return-order")
+    by = {}
+    for k in present:
+        match = [x for x in parts if type(x) is want_cls[k]]
+        if len(match) != 1:
+            raise Violation(f"parallel_add returned {[type(x).__name__ for x in parts]}; expected exactly one {want_cls[k].__name__} for {k}", "result-missing")
+        by[k] = match[0]
+    obs["documented_order"] = [type(x) for x in parts] == [want_cls[k] for k in present]
     eff, nrec = expected_stream(items)
     nrec += bonus * sum(1 for it in items if cbmod.normalize(it).get("mode", "ok") == "ok")
     total = sum(v for _, v in eff)
